@@ -1,4 +1,5 @@
 import UvModel.Lemmas.TpoolLemmas
+import UvModel.Generated.C08Kinds
 /-!
 # C08 — thread-pool requests: run once, complete once on the loop, cancel is exact, slow cap
 
@@ -191,5 +192,28 @@ example : ((run (State.init 1 1) [.sub 0 .cpu 0, .sub 0 .slow 0, .can 0 1, .go 0
     ((run (State.init 1 1) [.sub 0 .cpu 0, .sub 0 .slow 0, .can 0 1, .go 0, .drn 0, .go 0]).items 1).dones = 1 ∧
     ((run (State.init 1 1) [.sub 0 .cpu 0, .sub 0 .slow 0, .can 0 1, .go 0, .drn 0, .go 0]).items 0).dones = 0 := by
   decide
+
+/-! ## the callers' choice of work kind (Tie A: `Generated.callerKinds` is re-extracted from every
+`uv__work_submit(` call site of the working tree on each run of the check) -/
+
+/-- Every caller passes a compile-time constant kind, and exactly these: file operations are fast I/O, name
+    resolution (`uv_getaddrinfo`, `uv_getnameinfo`) is slow I/O, `uv_random` and `uv_queue_work` are CPU work.
+    A call site whose kind depends on anything (flags, arguments) breaks this obligation. -/
+theorem caller_kinds :
+    Generated.callerKinds =
+      [("src/unix/fs.c", "uv__fs_work", .const .fast),
+       ("src/unix/fs.c", "uv__fs_work", .const .fast),
+       ("src/unix/getaddrinfo.c", "uv__getaddrinfo_work", .const .slow),
+       ("src/unix/getnameinfo.c", "uv__getnameinfo_work", .const .slow),
+       ("src/random.c", "uv__random_work", .const .cpu),
+       ("src/threadpool.c", "uv__queue_work", .const .cpu)] := by decide
+
+/-- Name-resolution requests are always submitted as slow I/O — whatever their flags — so `slow_cap` and
+    `fast_not_starved` apply to all of them; and both resolvers do go through the pool. -/
+theorem name_resolution_is_slow :
+    (∀ e ∈ Generated.callerKinds,
+      (e.2.1 = "uv__getaddrinfo_work" ∨ e.2.1 = "uv__getnameinfo_work") → e.2.2 = .const .slow) ∧
+    (∃ e ∈ Generated.callerKinds, e.2.1 = "uv__getaddrinfo_work") ∧
+    (∃ e ∈ Generated.callerKinds, e.2.1 = "uv__getnameinfo_work") := by decide
 
 end UvModel.Tpool
